@@ -11,6 +11,7 @@ CONSTANTS
   MaxReorgs = 1
   MaxIdx = 0
   MaxFails = 0
+  InitDuties = FALSE
   Weaken = "noResetNextOnReorg"
 INVARIANT AtMostOnce
 INVARIANT AtItsSlot
